@@ -237,7 +237,16 @@ func (c *Ctx) par(sub string, n int, f func(w *W, i int), always bool) {
 		w := &W{c: c, sub: sub, classes: map[string]int64{}}
 		if c.onlyIdx >= 0 && c.onlyIdx < n {
 			w.idx = c.onlyIdx
-			f(w, c.onlyIdx)
+			func() {
+				defer func() {
+					if r := recover(); r != nil {
+						buf := make([]byte, 4096)
+						m := runtime.Stack(buf, false)
+						w.Fail("panic", fmt.Sprintf("unexpected panic in case: %v\n%s", r, buf[:m]), nil)
+					}
+				}()
+				f(w, c.onlyIdx)
+			}()
 		}
 		c.merge(w)
 		return
